@@ -809,7 +809,26 @@ func (fx *FuncExec) evalSpecCall(env *SpecEnv, x *ast.CallExpr) Val {
 		a, b := fx.evalSpec(env, x.Args[0]), fx.evalSpec(env, x.Args[1])
 		return bv(fmt.Sprintf("(and (= (gs.len %s) (gs.len %s)) (forall ((i Int)) (=> (and (<= 0 i) (< i (gs.len %s))) (= (gs.at %s i) (gs.at %s i)))))", a.S, b.S, a.S, a.S, b.S))
 	case "int", "byte", "rune", "int64", "uint32", "uint64", "uint":
-		return fx.evalSpec(env, x.Args[0])
+		v := fx.evalSpec(env, x.Args[0])
+		if v.Sort == SF64 {
+			fx.declareToInt()
+			return Val{T: types.Typ[types.Int], Sort: SInt, S: "(f64.toint " + v.S + ")"}
+		}
+		return v
+	case "float64":
+		v := fx.evalSpec(env, x.Args[0])
+		if v.Sort == SInt {
+			return Val{T: types.Typ[types.Float64], Sort: SF64, S: fmt.Sprintf("((_ to_fp 11 53) RNE (to_real %s))", v.S)}
+		}
+		return v
+	case "same":
+		// same(a, b): identical values (for floats: the same bit pattern, unlike Go's ==)
+		a, b := fx.evalSpec(env, x.Args[0]), fx.evalSpec(env, x.Args[1])
+		a, b = fx.coerceNil(a, b)
+		return bv(eq(a.S, b.S))
+	case "finite":
+		v := fx.evalSpec(env, x.Args[0])
+		return bv(fmt.Sprintf("(not (or (fp.isNaN %s) (fp.isInfinite %s)))", v.S, v.S))
 	case "any":
 		// any(x): x boxed into an interface value with its static type
 		v := fx.evalSpec(env, x.Args[0])
